@@ -695,7 +695,7 @@ def function(
                     if param[1]["typ"] in simple_types
                     else ast_parse_fix(param[1]["typ"])
                 )
-                if inline_types and "typ" in param[1]
+                if inline_types and param[1].get("typ")
                 else None,
                 arg=param[0],
             ),
